@@ -483,6 +483,27 @@ func runX8(p *an.Prog, r *an.Result) {
 				r.OK(name, construct+" joins to a "+w+" kind", an.FuncPos(join), "for every pair of kinds of these families, by the table of the function over all 27 x 27 pairs")
 			}
 		}
+		// and the converse, on which the integer and float arms of Equal and Less rely when they read
+		// their operands with Int/Uint/Float: an integer join only for two integers, a float join only
+		// for two numbers
+		conv := ""
+		for ka := int64(0); ka < kindCount; ka++ {
+			for kb := int64(0); kb < kindCount; kb++ {
+				res := kt.val[[2]int64{ka, kb}]
+				if ka == kb {
+					continue // the join of a kind with itself is that kind, whatever it is
+				}
+				if intK[res] && !(intK[ka] && intK[kb]) || floatK[res] && !((intK[ka] || floatK[ka]) && (intK[kb] || floatK[kb])) {
+					conv = fmt.Sprintf("%s x %s joins to %s", reflect.Kind(ka), reflect.Kind(kb), reflect.Kind(res))
+				}
+			}
+		}
+		r.Counts["family pairs"]++
+		if conv == "" {
+			r.OK(name, "a numeric join only for two numbers", an.FuncPos(join), "over all pairs of different kinds: the result is an integer kind only for two integer kinds and a float kind only for two numeric kinds")
+		} else {
+			r.Bad(name, "a numeric join for operands that are not numbers", an.FuncPos(join), fmt.Sprintf("%s: the numeric arm of Equal/Less would read a non-numeric operand with Int/Float and panic", conv))
+		}
 		r.Floor("family pairs", 4)
 		return
 	}
@@ -740,36 +761,67 @@ func runB12(p *an.Prog, r *an.Result) {
 			}
 		}
 	})
-	// AsArray: counter starts at b, steps by 1, runs while i <= e, appends i
-	var ctr *ssa.Phi
+	// AsArray lists start, start+1, ..., end by counting: k runs from 0 while k < Len() and start + k is
+	// appended. The other natural form, i = start; i <= end; i++, lists the same numbers but never ends
+	// when end is the largest int (i <= end cannot become false), appending for ever.
+	r.Counts["range results"]++
+	var byCount, byValue bool
+	var lenCall *ssa.Call
 	an.EachInstr(arrFn, func(in ssa.Instruction) {
-		if ph, ok := in.(*ssa.Phi); ok {
-			init, step := false, false
-			for _, e := range ph.Edges {
-				if fieldOf(arrFn, e) == "b" {
-					init = true
-				}
-				if t := norm(e); t.v == ssa.Value(ph) && t.off == 1 {
-					step = true
-				}
+		if c, ok := in.(*ssa.Call); ok && c.Call.StaticCallee() == lenFn {
+			lenCall = c
+		}
+	})
+	an.EachInstr(arrFn, func(in ssa.Instruction) {
+		ph, ok := in.(*ssa.Phi)
+		if !ok {
+			return
+		}
+		step := false
+		var init ssa.Value
+		for _, e := range ph.Edges {
+			if t := norm(e); t.v == ssa.Value(ph) && t.off == 1 {
+				step = true
+			} else {
+				init = e
 			}
-			if init && step {
-				ctr = ph
+		}
+		if !step || init == nil || ph.Referrers() == nil {
+			return
+		}
+		for _, u := range *ph.Referrers() {
+			bo, ok := u.(*ssa.BinOp)
+			if !ok || bo.X != ssa.Value(ph) {
+				continue
+			}
+			if c, isC := an.ConstInt(init); isC && c == 0 && bo.Op == token.LSS && lenCall != nil && bo.Y == ssa.Value(lenCall) {
+				// what is appended is start + k
+				an.EachInstr(arrFn, func(in2 ssa.Instruction) {
+					if mi, ok := in2.(*ssa.MakeInterface); ok {
+						lf := linOf(mi.X, 0)
+						okForm := lf.c == 0 && len(lf.coef) == 2
+						for at, cf := range lf.coef {
+							if cf != 1 || !(at == ssa.Value(ph) || fieldOf(arrFn, at) == "b") {
+								okForm = false
+							}
+						}
+						if okForm {
+							byCount = true
+						}
+					}
+				})
+			}
+			if fieldOf(arrFn, init) == "b" && (bo.Op == token.LEQ || bo.Op == token.LSS) && fieldOf(arrFn, norm(bo.Y).v) == "e" {
+				byValue = true
 			}
 		}
 	})
-	r.Counts["range results"]++
-	okA := false
-	if ctr != nil && ctr.Referrers() != nil {
-		for _, u := range *ctr.Referrers() {
-			if bo, ok := u.(*ssa.BinOp); ok && bo.Op == token.LEQ && bo.X == ssa.Value(ctr) && fieldOf(arrFn, bo.Y) == "e" {
-				okA = true
-			}
-		}
-	}
-	if okA {
-		r.OK(an.FuncName(arrFn), "walks i = start; i <= end; i++", an.FuncPos(arrFn), "")
-	} else {
+	switch {
+	case byValue:
+		r.Bad(an.FuncName(arrFn), "walks i = start; i <= end; i++", an.FuncPos(arrFn), "a loop that runs while i <= end never ends when end is the largest int: the counter wraps around and the array grows until memory is exhausted; count the elements instead (k < Len(), start + k)")
+	case byCount:
+		r.OK(an.FuncName(arrFn), "lists start + k for k < Len()", an.FuncPos(arrFn), "terminates for every range, the largest int included")
+	default:
 		r.Bad(an.FuncName(arrFn), "does not walk start..end", an.FuncPos(arrFn), "the array form of a range must list start, start+1, …, end")
 	}
 	r.Floor("range results", 3)
@@ -929,7 +981,7 @@ func init() {
 func loopFn(p *an.Prog) *ssa.Function {
 	var fn *ssa.Function
 	for _, f := range p.Funcs {
-		if f.Pkg != nil && an.RelPkg(f.Pkg.Pkg.Path()) == "tags" && len(callsNamed(f, "(render.Context).RenderChildren")) > 0 && len(callsNamed(f, "(render.Context).Set")) > 0 {
+		if isLoopFunction(f) {
 			fn = f
 		}
 	}
